@@ -132,6 +132,7 @@ class Topo:
                  'cObeyExit == ' + self._fn(lambda f: self._set(F[f].get('obey_exit', []))),
                  'cTopicOrder == <<' + ', '.join(S(t) for t in self.topic_order) + '>>',
                  'cBlocking == ' + self._set([f for f in self.names if F[f].get('blocking')]),
+                 'cSrcTimeout == ' + self._fn(lambda f: str(int(F[f].get('sources_timeout', 0)) // 100)),
                  extra_defs,
                  '====']
         return '\n'.join(lines) + '\n'
@@ -148,7 +149,7 @@ class Topo:
                  f'  FaultKinds = {self._set(fault_kinds)}', f'  Victims = {self._set(victims)}',
                  f'  CheckC03 = {str(check_c03).upper()}',
                  '  ExitAt <- cExitAt', '  ExitKind <- cExitKind', '  PropExit <- cPropExit', '  ObeyExit <- cObeyExit',
-                 '  Blocking <- cBlocking',
+                 '  Blocking <- cBlocking', '  SrcTimeout <- cSrcTimeout',
                  f'SPECIFICATION {spec}']
         if view:
             lines.append('VIEW view')
@@ -225,16 +226,18 @@ class SeededFault(RuntimeError):
 class SimPipeline:
     """Runs the topology's filters as real `Filter` subclasses (Filter.run) on a simzmq World."""
 
-    def __init__(self, topo: Topo, *, local_clocks=True, poll_ms=100, record=False, work_ms=250):
+    def __init__(self, topo: Topo, *, local_clocks=True, poll_ms=100, record=False, work_ms=250, sub_rcvhwm=0):
         Z = load_real()
         from openfilter.filter_runtime import filter as Fm, mq as Mm
         self.Z, self.Fm, self.Mm = Z, Fm, Mm
         self.topo = topo
         self.world = w = simzmq.World(local_clocks=local_clocks)
+        w.sub_rcvhwm = sub_rcvhwm          # 1000 = libzmq's default receive high-water mark (realistic total buffering)
         simzmq.Context.world = w
         Z.ZMQContext.context = (None, 0)
         Z.time_ns = w.time_ns
         Z.sleep = w.sleep
+        Mm.time = lambda: w.time_ns() / 1e9        # mq.py reads the wall clock (metrics): virtual as well
         Z.ZMQ_POLL_TIMEOUT = poll_ms
         w.tick_ns = poll_ms * 1_000_000
         Mm.POLL_TIMEOUT_MS = poll_ms
@@ -259,7 +262,7 @@ class SimPipeline:
     # ---- filters ----------------------------------------------------------------------------------------------------
     def _config(self, f):
         t, d = self.topo, self.topo.filters[f]
-        cfg = {'id': f, 'outputs_metrics': False, 'outputs_filter': bool(d['beh']['hid']), 'outputs_jpg': False,
+        cfg = {'id': d.get('cid', f), 'outputs_metrics': False, 'outputs_filter': bool(d['beh']['hid']), 'outputs_jpg': False,
                'mq_log': False}
         if d['srcs']:
             srcs = []
@@ -277,6 +280,8 @@ class SimPipeline:
                 cfg['sources_balance'] = True
             if d['beh']['lowlat']:
                 cfg['sources_low_latency'] = True
+        if d.get('sources_timeout'):
+            cfg['sources_timeout'] = d['sources_timeout']        # ms: process() is called with {} when nothing arrived in time
         if d['nout']:
             cfg['outputs'] = [f'tcp://*:{t.port(f, o)}' for o in range(1, d['nout'] + 1)]
             if d['outbal']:
@@ -332,6 +337,8 @@ class SimPipeline:
                         w.sleep(d.get('work_ms', run.work_ms) / 1000)     # a slow producer: the frame takes (virtual) time to make
                     return fr
                 st = self_.mq.send_state
+                if not frames and st is None and d.get('sources_timeout'):
+                    return {} if d['nout'] else None          # loop_once gave up waiting (sources_timeout): not a delivery
                 seen = {t: tok(fr) for t, fr in frames.items()}
                 rec = {'inc': run.incs[f], 'id': None if st is None else st.msg_id,
                        'bal': None if st is None else st.balanced, 'frames': seen, 'step': w.step_no}
